@@ -573,6 +573,15 @@ def proxy_cases(tier):
                             if sep != " " and len(hl) < 2:
                                 continue
                             yield {"t": "proxy", "headers": hl, "tp": tp, "tpc": tpc, "sep": sep}
+    # every subset again in Canonical-Case and UPPER-CASE spelling (with trusted_proxy set): header kinds are
+    # matched case-insensitively, so the exclusion rules must not depend on the spelling
+    def canon(k):
+        return "-".join(x.capitalize() for x in k.split("-"))
+
+    for r in range(1, len(KINDS) + 1):
+        for hs in itertools.combinations(KINDS, r):
+            for spell in (canon, str.upper):
+                yield {"t": "proxy", "headers": [spell(h) for h in hs], "tp": True, "tpc": False, "sep": " "}
     # an explicitly empty header list, and mixed-case kinds (documentation silent on case)
     for tp in (False, True):
         yield {"t": "proxy", "headers": [], "tp": tp, "tpc": False, "sep": " ", "empty": True}
